@@ -30,5 +30,6 @@ Spec == Init /\ [][Next]_vars
 C15_Design == res # "bad"
 \* the sections lists the conformance check uses, with the command line the specification prescribes
 ExportLists == { <<>>, <<".text">>, <<".foo">>, <<".plt.got">>, <<".text", ".foo">>, <<".foo", ".text">>,
-                 <<".nope">>, <<".text", ".nope">>, <<".data">>, <<".foo", ".plt.got">> }
+                 <<".nope">>, <<".text", ".nope">>, <<".data">>, <<".foo", ".plt.got">>,
+                 <<".text.Foo_Bar">>, <<".text", ".text.Foo_Bar">> }
 =============================================================================
